@@ -11,6 +11,7 @@ import (
 	"context"
 	"errors"
 	"fmt"
+	"sort"
 	"sync"
 	"time"
 
@@ -34,6 +35,7 @@ type relayFaults struct {
 	latMin     time.Duration
 	latMax     time.Duration
 	injectPm   int // after a Send, the relay also delivers a forged message (C07)
+	delErrPm   int // DelCipherBox fails (at any time, not only before `until`); the box may or may not be gone
 }
 
 type relayMsg struct {
@@ -104,6 +106,25 @@ func (r *relay) NewCipherBox(ctx context.Context, in *hashmailrpc.CipherBoxAuth,
 func (r *relay) DelCipherBox(ctx context.Context, in *hashmailrpc.CipherBoxAuth, _ ...grpc.CallOption) (*hashmailrpc.DelCipherBoxResp, error) {
 	id := sidKey(in.Desc.StreamId)
 	r.mu.Lock()
+	if r.f.delErrPm > 0 && simrt.Pm(r.f.delErrPm, "relay.del-err") {
+		r.rc.Fault("relay-delbox-error")
+		if simrt.Choose(2, "relay.del-err-kept") == 0 {
+			r.mu.Unlock()
+			r.note("del box %s fails, box kept", id[:8])
+			return nil, status.Error(codes.Unavailable, "simulated relay failure")
+		}
+		b := r.boxes[id]
+		delete(r.boxes, id)
+		r.mu.Unlock()
+		if b != nil {
+			select {
+			case b.wake <- struct{}{}:
+			default:
+			}
+		}
+		r.note("del box %s fails, box gone", id[:8])
+		return nil, status.Error(codes.Unavailable, "simulated relay failure")
+	}
 	b := r.boxes[id]
 	delete(r.boxes, id)
 	r.mu.Unlock()
@@ -384,7 +405,8 @@ func (r *relay) outage(until time.Duration) {
 	r.f.dropPm, r.f.delayPm, r.f.fullPm = 0, 0, 0
 	// kill the streams that are sitting idle in Recv
 	var wakes []chan struct{}
-	for _, b := range r.boxes {
+	for _, id := range r.boxIDs() {
+		b := r.boxes[id]
 		if b.reader != nil && b.reader.dead == nil {
 			b.reader.dead = status.Error(codes.Unavailable, "simulated relay outage")
 			b.reader = nil
@@ -399,6 +421,50 @@ func (r *relay) outage(until time.Duration) {
 		}
 	}
 	r.rc.Fault("relay-outage")
+}
+
+// restart models a relay process that is restarted: every mailbox and every
+// queued message is lost, every stream dies, and until the given instant every
+// call fails. Afterwards the relay works, with no memory of earlier mailboxes.
+func (r *relay) restart(until time.Duration) {
+	r.mu.Lock()
+	r.f.until = until
+	r.f.recvErrPm, r.f.sendErrPm, r.f.openErrPm = 1000, 1000, 1000
+	r.f.dropPm, r.f.delayPm, r.f.fullPm = 0, 0, 0
+	var wakes []chan struct{}
+	for _, id := range r.boxIDs() {
+		b := r.boxes[id]
+		if b.reader != nil && b.reader.dead == nil {
+			b.reader.dead = status.Error(codes.Unavailable, "simulated relay restart")
+			b.reader = nil
+		}
+		if b.writer != nil {
+			b.writer.dead = status.Error(codes.Unavailable, "simulated relay restart")
+			b.writer = nil
+		}
+		wakes = append(wakes, b.wake)
+		delete(r.boxes, id)
+	}
+	r.mu.Unlock()
+	for _, w := range wakes {
+		select {
+		case w <- struct{}{}:
+		default:
+		}
+	}
+	r.note("restart: all mailboxes lost")
+	r.rc.Fault("relay-restart")
+}
+
+// boxIDs: the mailbox ids in a fixed order (map iteration order must not leak
+// into the schedule).
+func (r *relay) boxIDs() []string {
+	ids := make([]string, 0, len(r.boxes))
+	for id := range r.boxes {
+		ids = append(ids, id)
+	}
+	sort.Strings(ids)
+	return ids
 }
 
 func (r *relay) sidCount(id string) int {
